@@ -12,7 +12,8 @@
 //!   all          in = [init, threads, slots]      every interleaving, `slots` grants per call
 //!   seq          in = [calls]                     single-threaded API script
 //!   stress       in = [label, threads, per_thread, v, init]  free-running threads, no hook
-//!   transparent  in = [pipe, mode, data, parts, regs, errmodes, poison]
+//!   transparent  in = [pipe, mode, data, parts, regs, errmodes, poison, cfg]
+//!   export       in = [metrics, stamps, via_all]     to_json / save_to_file / snapshot keys
 //!
 //! Metric names are integers: k >= 0 is the string "c<k>", -1 is "execution_time_ms".
 //! A metric is [name, kind, val]: kind 0 = CounterMetric(val), kind 1 = some other metric
@@ -22,7 +23,8 @@
 //! test by a copy of metrics.rs with one realistic defect (`split` = the pre-fix two-lock
 //! increment_counter); the check must then report a violation.
 use ibv::{Emitter, SplitMix64, Tier, drive};
-use ironbeam::metrics::{CounterMetric, GaugeMetric, Metric, MetricsCollector};
+use ironbeam::checkpoint::{CheckpointConfig, CheckpointPolicy};
+use ironbeam::metrics::{CounterMetric, GaugeMetric, HistogramMetric, Metric, MetricsCollector};
 use ironbeam::verif::{set_yield_hook, yield_point};
 use ironbeam::{ExecMode, NodeId, PCollection, Pipeline, RFBound, Runner, Sum, from_vec};
 use serde_json::{Value, json};
@@ -35,14 +37,27 @@ use std::time::{Duration, Instant};
 
 // ------------------------------------------------------------------ names and metrics
 
+/// negative names: the reserved key of to_json and awkward strings (empty, blank, the field
+/// names of the export, non-ASCII, characters JSON has to escape)
+const ODD_NAMES: [(i64, &str); 7] = [
+    (-1, "execution_time_ms"),
+    (-2, ""),
+    (-3, " "),
+    (-4, "value"),
+    (-5, "m\u{e9}trique \u{2713}"),
+    (-6, "a.b/c\"d\\e\nf"),
+    (-7, "description"),
+];
 fn name_str(k: i64) -> String {
-    if k == -1 { "execution_time_ms".to_string() } else { format!("c{k}") }
+    match ODD_NAMES.iter().find(|(i, _)| *i == k) {
+        Some((_, s)) => (*s).to_string(),
+        None => format!("c{k}"),
+    }
 }
 fn name_int(s: &str) -> i64 {
-    if s == "execution_time_ms" {
-        -1
-    } else {
-        s.strip_prefix('c').and_then(|r| r.parse().ok()).unwrap_or(-99)
+    match ODD_NAMES.iter().find(|(_, t)| *t == s) {
+        Some((i, _)) => *i,
+        None => s.strip_prefix('c').and_then(|r| r.parse().ok()).unwrap_or(-99),
     }
 }
 
@@ -62,14 +77,72 @@ impl Metric for TagMetric {
     }
 }
 
+/// a user metric whose value() / description() are awkward JSON
+struct OddMetric {
+    name: String,
+    which: i64,
+}
+impl Metric for OddMetric {
+    fn name(&self) -> &str {
+        &self.name
+    }
+    fn value(&self) -> Value {
+        match self.which {
+            0 => Value::Null,
+            1 => json!(""),
+            2 => json!({}),
+            3 => json!([]),
+            4 => json!(false),
+            _ => json!({"value": null, "nested": [null, {"x": []}]}),
+        }
+    }
+    fn description(&self) -> Option<&str> {
+        if self.which % 2 == 0 { Some("") } else { None }
+    }
+    fn as_any(&self) -> &dyn Any {
+        self
+    }
+}
+
+/// kind 0 counter(val) | 1 other (even val: gauge(val), odd: TagMetric) | 2 gauge with an
+/// awkward float | 3 histogram of `val` samples (0 = empty, >= 100: contains NaN and inf) |
+/// 4 OddMetric | 5 counter at a boundary (0 = CounterMetric::new, 1 = u64::MAX)
 fn make_metric(name: i64, kind: i64, val: i64) -> Box<dyn Metric> {
     let n = name_str(name);
-    if kind == 0 {
-        Box::new(CounterMetric::with_value(n, val as u64))
-    } else if val % 2 == 0 {
-        Box::new(GaugeMetric::new(n, val as f64))
-    } else {
-        Box::new(TagMetric { name: n, tag: val })
+    match kind {
+        0 => Box::new(CounterMetric::with_value(n, val as u64)),
+        2 => {
+            let f = [f64::NAN, f64::INFINITY, f64::NEG_INFINITY, 0.0, -0.0, f64::MAX, 1e-310]
+                [(val.rem_euclid(7)) as usize];
+            let g = GaugeMetric::new(n, f);
+            if val % 2 == 0 { Box::new(g.with_description("a ratio")) } else { Box::new(g) }
+        }
+        3 => {
+            let mut h = HistogramMetric::new(n);
+            for i in 0..(val % 100) {
+                h.record(i as f64 * 1.5);
+            }
+            if val >= 100 {
+                h.record(f64::NAN);
+                h.record(f64::INFINITY);
+            }
+            if val % 2 == 0 { Box::new(h.with_description("latencies")) } else { Box::new(h) }
+        }
+        4 => Box::new(OddMetric { name: n, which: val }),
+        5 => {
+            if val == 0 {
+                Box::new(CounterMetric::new(n))
+            } else {
+                Box::new(CounterMetric::with_value(n, u64::MAX))
+            }
+        }
+        _ => {
+            if val % 2 == 0 {
+                Box::new(GaugeMetric::new(n, val as f64))
+            } else {
+                Box::new(TagMetric { name: n, tag: val })
+            }
+        }
     }
 }
 
@@ -110,6 +183,7 @@ trait Coll: Send + Sync {
     fn elapsed(&self) -> Option<Duration>;
     fn snap(&self) -> HashMap<String, Value>;
     fn json(&self) -> Value;
+    fn save(&self, path: &str) -> bool;
 }
 
 struct Real(MetricsCollector);
@@ -141,6 +215,9 @@ impl Coll for Real {
     fn json(&self) -> Value {
         self.0.to_json()
     }
+    fn save(&self, path: &str) -> bool {
+        self.0.save_to_file(path).is_ok()
+    }
 }
 
 /// Copy of the relevant part of src/metrics.rs with ONE seeded defect (sensitivity self-test).
@@ -152,6 +229,7 @@ enum Defect {
     ReplaceOther, // increment of a non-counter metric replaces it by a counter
     SetAdds,      // set_counter adds instead of overwriting
     FirstWins,    // register keeps an existing metric
+    SkipNull,     // to_json leaves out metrics whose value() is JSON null (NaN / inf gauges)
 }
 struct MutInner {
     metrics: HashMap<String, Box<dyn Metric>>,
@@ -257,12 +335,18 @@ impl Coll for Mutant {
         let inner = self.inner.lock().unwrap();
         let mut o = serde_json::Map::new();
         for (n, m) in &inner.metrics {
+            if self.defect == Defect::SkipNull && m.value().is_null() {
+                continue;
+            }
             o.insert(n.clone(), json!({"value": m.value()}));
         }
         if let (Some(s), Some(e)) = (inner.start_time, inner.end_time) {
             o.insert("execution_time_ms".into(), json!({"value": e.duration_since(s).as_millis() as u64}));
         }
         Value::Object(o)
+    }
+    fn save(&self, path: &str) -> bool {
+        std::fs::write(path, serde_json::to_string_pretty(&self.json()).unwrap()).is_ok()
     }
 }
 
@@ -275,6 +359,7 @@ fn new_collector() -> Arc<dyn Coll> {
         Some("replace_other") => Arc::new(Mutant::new(Defect::ReplaceOther)),
         Some("set_adds") => Arc::new(Mutant::new(Defect::SetAdds)),
         Some("first_wins") => Arc::new(Mutant::new(Defect::FirstWins)),
+        Some("skip_null") => Arc::new(Mutant::new(Defect::SkipNull)),
         Some(other) => panic!("unknown C16_MUTANT {other}"),
     }
 }
@@ -620,12 +705,48 @@ fn outcome<T>(r: std::thread::Result<anyhow::Result<Vec<T>>>, conv: &dyn Fn(T) -
     }
 }
 
+/// Runner configuration of a transparent case.
+///   0 no checkpoint_config            1 Some(config) with enabled = false
+///   2 AfterEveryBarrier               3 EveryNNodes(1)            4 EveryNNodes(2)
+///   5 TimeInterval(0)                 6 TimeInterval(3600)
+///   7 Hybrid{barriers, 0 s}           8 Hybrid{no barriers, 3600 s}
+///   9 the collect_seq / collect_par helpers (successful runs; failing runs as cfg 0)
+///   10 AfterEveryBarrier, auto_recover = false, keep all   11 EveryNNodes(1), keep 1
+struct RunCfg {
+    cfg: i64,
+    dir: std::path::PathBuf,
+}
+fn checkpoint_config(rc: &RunCfg) -> Option<CheckpointConfig> {
+    let policy = match rc.cfg {
+        0 | 9 => return None,
+        1 | 2 | 10 => CheckpointPolicy::AfterEveryBarrier,
+        3 | 11 => CheckpointPolicy::EveryNNodes(1),
+        4 => CheckpointPolicy::EveryNNodes(2),
+        5 => CheckpointPolicy::TimeInterval(0),
+        6 => CheckpointPolicy::TimeInterval(3600),
+        7 => CheckpointPolicy::Hybrid { barriers: true, interval_secs: 0 },
+        _ => CheckpointPolicy::Hybrid { barriers: false, interval_secs: 3600 },
+    };
+    Some(CheckpointConfig {
+        enabled: rc.cfg != 1,
+        directory: rc.dir.clone(),
+        policy,
+        auto_recover: rc.cfg != 10,
+        max_checkpoints: match rc.cfg {
+            10 => None,
+            11 => Some(1),
+            _ => Some(3),
+        },
+    })
+}
+
 fn collect_with<T: RFBound>(
     p: &Pipeline,
     c: &PCollection<T>,
     mode: i64,
     parts: usize,
     errmode: i64,
+    rc: &RunCfg,
     conv: &dyn Fn(T) -> Vec<i64>,
     sort: bool,
 ) -> Value {
@@ -635,6 +756,7 @@ fn collect_with<T: RFBound>(
         } else {
             ExecMode::Parallel { threads: None, partitions: Some(parts) }
         },
+        checkpoint_config: checkpoint_config(rc),
         ..Default::default()
     };
     match errmode {
@@ -648,6 +770,12 @@ fn collect_with<T: RFBound>(
             let r = catch_unwind(AssertUnwindSafe(|| runner.run_collect::<T>(p, NodeId::new(1_000_000))));
             outcome(r, conv, sort)
         }
+        _ if rc.cfg == 9 => {
+            let r = catch_unwind(AssertUnwindSafe(|| {
+                if mode == 0 { c.clone().collect_seq() } else { c.clone().collect_par(None, Some(parts)) }
+            }));
+            outcome(r, conv, sort)
+        }
         _ => {
             let r = catch_unwind(AssertUnwindSafe(|| runner.run_collect::<T>(p, c.node_id())));
             outcome(r, conv, sort)
@@ -656,14 +784,22 @@ fn collect_with<T: RFBound>(
 }
 
 /// build pipeline `pipe` on `p` and run it once per entry of `errmodes`
-fn run_pipeline(p: &Pipeline, pipe: i64, mode: i64, data: &[i64], parts: usize, errmodes: &[i64]) -> Value {
+fn run_pipeline(
+    p: &Pipeline,
+    pipe: i64,
+    mode: i64,
+    data: &[i64],
+    parts: usize,
+    errmodes: &[i64],
+    rc: &RunCfg,
+) -> Value {
     let src = from_vec(p, data.to_vec());
     let mut outs = Vec::new();
     match pipe {
         0 => {
             let c = src.map(|x: &i64| x * 2 + 1).filter(|x: &i64| x % 3 != 0);
             for &e in errmodes {
-                outs.push(collect_with(p, &c, mode, parts, e, &|x: i64| vec![x], false));
+                outs.push(collect_with(p, &c, mode, parts, e, rc, &|x: i64| vec![x], false));
             }
         }
         1 => {
@@ -675,6 +811,7 @@ fn run_pipeline(p: &Pipeline, pipe: i64, mode: i64, data: &[i64], parts: usize, 
                     mode,
                     parts,
                     e,
+                    rc,
                     &|(k, mut vs): (i64, Vec<i64>)| {
                         // canonical row: key, then the group's values sorted
                         vs.sort_unstable();
@@ -689,13 +826,13 @@ fn run_pipeline(p: &Pipeline, pipe: i64, mode: i64, data: &[i64], parts: usize, 
         2 => {
             let c = src.key_by(|x: &i64| x.rem_euclid(4)).combine_values(Sum::<i64>::default());
             for &e in errmodes {
-                outs.push(collect_with(p, &c, mode, parts, e, &|(k, s): (i64, i64)| vec![k, s], true));
+                outs.push(collect_with(p, &c, mode, parts, e, rc, &|(k, s): (i64, i64)| vec![k, s], true));
             }
         }
         3 => {
             let c = src.combine_globally(Sum::<i64>::default(), Some(2));
             for &e in errmodes {
-                outs.push(collect_with(p, &c, mode, parts, e, &|s: i64| vec![s], false));
+                outs.push(collect_with(p, &c, mode, parts, e, rc, &|s: i64| vec![s], false));
             }
         }
         _ => {
@@ -710,6 +847,7 @@ fn run_pipeline(p: &Pipeline, pipe: i64, mode: i64, data: &[i64], parts: usize, 
                     mode,
                     parts,
                     e,
+                    rc,
                     &|(k, (l, r)): (i64, (i64, i64))| vec![k, l, r],
                     true,
                 ));
@@ -721,6 +859,48 @@ fn run_pipeline(p: &Pipeline, pipe: i64, mode: i64, data: &[i64], parts: usize, 
 
 const BIG: u64 = (1 << 62) - 1;
 const FREE: &str = "free-running threads, no scheduler";
+const SCRATCH: &str = "/verif/run/C16/scratch";
+
+// ------------------------------------------------------------------ JSON export of every metric kind
+
+/// in = [metrics, stamps, via_all]: register the metrics (one register_all, or register one by
+/// one), optionally record start and end, then export three ways
+fn run_export(input: &Value) -> Value {
+    set_yield_hook(None);
+    let c = new_collector();
+    if input[2].as_i64().unwrap() != 0 {
+        c.reg_all(parse_metrics(&input[0]));
+    } else {
+        for m in parse_metrics(&input[0]) {
+            c.reg(m);
+        }
+    }
+    if input[1].as_i64().unwrap() != 0 {
+        c.start();
+        c.end();
+    }
+    let snap = c.snap();
+    let mut snap_keys: Vec<i64> = snap.keys().map(|k| name_int(k)).collect();
+    snap_keys.sort_unstable();
+    let mut counters: Vec<(i64, u64)> =
+        snap.iter().filter_map(|(k, v)| v.as_u64().map(|u| (name_int(k), u))).collect();
+    counters.sort_unstable();
+    let j = c.json();
+    let shaped = j.as_object().is_some_and(|o| o.values().all(|e| e.as_object().is_some_and(|e| e.contains_key("value"))));
+    std::fs::create_dir_all(SCRATCH).unwrap();
+    let dir = tempfile::Builder::new().prefix("export-").tempdir_in(SCRATCH).unwrap();
+    let path = dir.path().join("metrics.json");
+    let file_keys = if c.save(path.to_str().unwrap()) {
+        match std::fs::read_to_string(&path).ok().and_then(|t| serde_json::from_str::<Value>(&t).ok()) {
+            Some(v) => canon_keys(&v),
+            None => json!("unreadable"),
+        }
+    } else {
+        json!("not-saved")
+    };
+    let counters: Vec<Value> = counters.into_iter().map(|(k, u)| json!([k, u])).collect();
+    json!(["ok", snap_keys, canon_keys(&j), shaped, file_keys, counters])
+}
 
 fn run_transparent(input: &Value) -> Value {
     set_yield_hook(None);
@@ -730,10 +910,17 @@ fn run_transparent(input: &Value) -> Value {
     let parts = input[3].as_u64().unwrap() as usize;
     let errmodes: Vec<i64> = input[5].as_array().unwrap().iter().map(|x| x.as_i64().unwrap()).collect();
     let poison = input[6].as_i64().unwrap() != 0;
+    let cfg = input.get(7).and_then(Value::as_i64).unwrap_or(0);
+    // scratch checkpoint directories (one per pipeline), removed when the case is done
+    std::fs::create_dir_all(SCRATCH).unwrap();
+    let d0 = tempfile::Builder::new().prefix("ckpt-a-").tempdir_in(SCRATCH).unwrap();
+    let d1 = tempfile::Builder::new().prefix("ckpt-b-").tempdir_in(SCRATCH).unwrap();
+    let rc0 = RunCfg { cfg, dir: d0.path().join("ck") };
+    let rc1 = RunCfg { cfg, dir: d1.path().join("ck") };
 
     // without a collector
     let p0 = Pipeline::default();
-    let without = run_pipeline(&p0, pipe, mode, &data, parts, &errmodes);
+    let without = run_pipeline(&p0, pipe, mode, &data, parts, &errmodes, &rc0);
 
     // with a collector (only the real one can be attached to a pipeline)
     let mut mc = MetricsCollector::new();
@@ -746,14 +933,15 @@ fn run_transparent(input: &Value) -> Value {
     }
     let p1 = Pipeline::default();
     p1.set_metrics(mc.clone());
-    let with = run_pipeline(&p1, pipe, mode, &data, parts, &errmodes);
+    let with = run_pipeline(&p1, pipe, mode, &data, parts, &errmodes, &rc1);
     let rest = catch_unwind(AssertUnwindSafe(|| {
         let el = mc.elapsed();
         let got = p1.get_metrics().is_some();
         let taken = p1.take_metrics();
         let keys = taken.as_ref().map_or(Value::Null, |m| canon_keys(&m.to_json()));
         let gone = p1.get_metrics().is_none();
-        json!(["ok", el.is_some(), keys, got, taken.is_some(), gone])
+        let positive = el.is_some_and(|d| d > Duration::ZERO);
+        json!(["ok", el.is_some(), keys, got, taken.is_some(), gone, positive])
     }))
     .unwrap_or_else(|_| json!(["panic"]));
     json!(["ok", with, without, rest])
@@ -787,6 +975,7 @@ fn run(kind: &str, input: &Value) -> Value {
         "seq" => run_seq(&input[0]),
         "stress" => run_stress(input),
         "transparent" => run_transparent(input),
+        "export" => run_export(input),
         _ => json!(["bad-kind"]),
     }
 }
@@ -1013,6 +1202,16 @@ fn generate(seed: u64, tier: Tier, em: &mut Emitter) {
     em.case("stress", json!([FREE, 2, 50000, 3, 0]), true, &["stress"]);
     em.case("stress", json!([FREE, 4, 20000, 1, 1]), true, &["stress"]);
 
+    // every metric kind with its awkward values: (kind, val) of make_metric
+    let catalogue: Vec<(i64, i64)> = vec![
+        (0, 0), (0, 1), (0, BIG as i64),
+        (1, 2), (1, 3),
+        (2, 0), (2, 1), (2, 2), (2, 3), (2, 4), (2, 5), (2, 6),
+        (3, 0), (3, 1), (3, 6), (3, 100), (3, 103),
+        (4, 0), (4, 1), (4, 2), (4, 3), (4, 4), (4, 5),
+        (5, 0), (5, 1),
+    ];
+
     // 6. pipelines with and without a collector, both engines
     let datas: Vec<Vec<i64>> = vec![
         vec![],
@@ -1029,7 +1228,7 @@ fn generate(seed: u64, tier: Tier, em: &mut Emitter) {
                     1 => json!([[0, 0, 3], [1, 1, 2]]),
                     _ => json!([[0, 0, 3], [0, 1, 5], [2, 0, 1], [-1, 0, 9]]),
                 };
-                em.case("transparent", json!([pipe, mode, data, parts, regs, [0], 0]), !data.is_empty(), &["pipeline"]);
+                em.case("transparent", json!([pipe, mode, data, parts, regs, [0], 0, 0]), !data.is_empty(), &["pipeline"]);
             }
         }
     }
@@ -1041,25 +1240,86 @@ fn generate(seed: u64, tier: Tier, em: &mut Emitter) {
                 let parts = rng.range(1, 5);
                 em.case(
                     "transparent",
-                    json!([pipe, mode, data, parts, [[0, 0, 1]], errs, 0]),
+                    json!([pipe, mode, data, parts, [[0, 0, 1]], errs, 0, 0]),
                     true,
                     &["pipeline", "failing-run"],
                 );
             }
         }
     }
+    // every Runner configuration: checkpoint_config None / disabled / enabled with each policy,
+    // and the collect_seq / collect_par helpers; successful runs on a fresh collector, then
+    // failing and repeated runs under the checkpointing engines
+    for pipe in 0..5 {
+        for mode in 0..2 {
+            for cfg in 1..=11 {
+                let data: Vec<i64> = (0..rng.range(3, 12)).map(|_| rng.range(-9, 9)).collect();
+                let parts = rng.range(1, 4);
+                let regs = if cfg % 2 == 0 { json!([[0, 0, 1]]) } else { json!([[0, 2, 0], [1, 4, 0], [2, 3, 0]]) };
+                em.case(
+                    "transparent",
+                    json!([pipe, mode, data, parts, regs, [0], 0, cfg]),
+                    true,
+                    &["pipeline", "runner-config"],
+                );
+            }
+        }
+    }
+    for pipe in [0, 1, 3, 4] {
+        for mode in 0..2 {
+            for cfg in [2, 3, 5, 7, 9] {
+                for errs in [vec![1], vec![2], vec![0, 2], vec![0, 0]] {
+                    let data: Vec<i64> = (0..rng.range(2, 9)).map(|_| rng.range(-9, 9)).collect();
+                    em.case(
+                        "transparent",
+                        json!([pipe, mode, data, rng.range(1, 3), [[0, 0, 1]], errs, 0, cfg]),
+                        true,
+                        &["pipeline", "runner-config", "failing-run"],
+                    );
+                }
+            }
+        }
+    }
     let n_tr = if thorough { 400 } else { 40 };
     for _ in 0..n_tr {
         let data: Vec<i64> = (0..rng.range(0, 30)).map(|_| rng.range(-20, 20)).collect();
-        let regs: Vec<Value> =
-            (0..rng.range(0, 4)).map(|_| json!([rng.range(-1, 3), rng.range(0, 1), rng.range(0, 9)])).collect();
+        let regs: Vec<Value> = (0..rng.range(0, 4))
+            .map(|_| {
+                let (k, v) = *rng.pick(&catalogue);
+                json!([rng.range(-3, 3), k, v])
+            })
+            .collect();
         let errs: Vec<i64> = (0..rng.range(1, 3)).map(|_| if rng.chance(3, 4) { 0 } else { rng.range(1, 2) }).collect();
         em.case(
             "transparent",
-            json!([rng.range(0, 4), rng.range(0, 1), data, rng.range(1, 6), regs, errs, 0]),
+            json!([rng.range(0, 4), rng.range(0, 1), data, rng.range(1, 6), regs, errs, 0, rng.range(0, 11)]),
             true,
             &["pipeline", "random"],
         );
+    }
+
+    // 7. JSON export (to_json, save_to_file, snapshot) of every metric kind the crate ships and
+    //    of user metrics, with awkward values and names: each alone, then seeded lists with
+    //    repeated names
+    for &(k, v) in &catalogue {
+        for name in [0, -1, -2, -5] {
+            for stamps in 0..2 {
+                em.case("export", json!([[[name, k, v]], stamps, (k + v + name) & 1]), true, &["export", "single"]);
+            }
+        }
+    }
+    em.case("export", json!([[], 0, 0]), false, &["export", "single"]);
+    em.case("export", json!([[], 1, 1]), false, &["export", "single"]);
+    let n_ex = if thorough { 2500 } else { 250 };
+    let names = [0, 1, 2, -1, -2, -3, -4, -5, -6, -7];
+    for _ in 0..n_ex {
+        let ms: Vec<Value> = (0..rng.range(1, 7))
+            .map(|_| {
+                let (k, v) = *rng.pick(&catalogue);
+                json!([*rng.pick(&names), k, v])
+            })
+            .collect();
+        em.case("export", json!([ms, rng.range(0, 1), rng.range(0, 1)]), true, &["export", "random"]);
     }
 }
 
